@@ -152,8 +152,16 @@ def ob_read(keys, notes, tps, svs, ctx, meta=True):
     den = _den(d)
     all_mult = all(hm for _hs, hm in svs)
     _cmp(ctx, "read", _lib(m), den, skip_sv_values=not all_mult)
-    # (an omitted Multiplier is read as 1.0 by QuaMap.read while the format's rule gives 0: the two readings are both
-    #  defensible, so the value of such an SV is left out of the claim - DESIGN section 4, C06)
+    # (an omitted Multiplier is read as 1.0 by QuaMap.read while the format's rule gives 0: both readings are accepted, anything
+    #  else is not a default of the format or of the library's documented reader)
+    if not all_mult:
+        rows = _lib(m)["svs"]
+        ok = []
+        for (hs, hm), spec_sv in zip(svs, d["SliderVelocities"]):
+            if not hm:
+                t0 = spec_sv.get("StartTime", 0)
+                ok.append(ctx.any(*[ctx.all(cell_same(ctx, r[0], t0), ctx.any(cell_same(ctx, r[1], 1), cell_same(ctx, r[1], 0))) for r in rows]))
+        ctx.check("read.svs.omitted-multiplier-is-1-or-0", ctx.all(*ok), note="%r" % (rows,))
     _cmp_meta(ctx, "read", m, d)
     for k in ("hits", "holds"):
         df = m.objs[k].df
